@@ -579,3 +579,8 @@ pub(crate) mod test {
         assert_eq!(0, l.estimate_hashed_key(3));
     }
 }
+
+#[cfg(feature = "verif-hooks")]
+mod verif;
+#[cfg(feature = "verif-hooks")]
+pub use verif::VerifTinyLFUState;
